@@ -36,9 +36,26 @@ fn main() {
 	let (pgid, sid) = unsafe { (libc::getpgid(0), libc::getsid(0)) };
 	let cwd = std::env::current_dir().map(|p| p.to_string_lossy().into_owned()).unwrap_or_default();
 	let mark = std::env::var("WXH_MARK").unwrap_or_default();
+	// earlier children of the same scenario (same log file) that are still alive when this one starts
+	let mut alive_prev: Vec<i64> = Vec::new();
+	if let Ok(p) = std::env::var("WXH_OUT") {
+		for l in std::fs::read_to_string(p).unwrap_or_default().lines() {
+			if let Some(i) = l.find("\"ev\":\"start\"") {
+				if let Some(j) = l[i..].find("\"pid\":") {
+					let num: String = l[i + j + 6..].chars().take_while(|c| c.is_ascii_digit()).collect();
+					if let Ok(n) = num.parse::<i64>() {
+						if n != pid as i64 && unsafe { libc::kill(n as i32, 0) } == 0 && !alive_prev.contains(&n) {
+							alive_prev.push(n);
+						}
+					}
+				}
+			}
+		}
+	}
 	log(&format!(
-		"{{\"ev\":\"start\",\"t\":{},\"pid\":{pid},\"pgid\":{pgid},\"sid\":{sid},\"cwd\":{:?},\"mark\":{:?},\"argv\":[{}]}}",
+		"{{\"ev\":\"start\",\"t\":{},\"pid\":{pid},\"pgid\":{pgid},\"sid\":{sid},\"alive_prev\":{:?},\"cwd\":{:?},\"mark\":{:?},\"argv\":[{}]}}",
 		now_ms(),
+		alive_prev,
 		cwd,
 		mark,
 		argv.iter().map(|a| format!("\"{a}\"")).collect::<Vec<_>>().join(",")
